@@ -44,7 +44,7 @@ def run(ctx):
         write_evidence(ctx, "exploration", {"evaluations": max(1, res["evaluations"]), "distinct_nontrivial": 2, "rule": "replay of one recorded case",
                                             "samples": res["samples"] or [{"replay": ctx.replay}]})
         return
-    rounds = 4 if ctx.quick else 30
+    rounds = 4 if ctx.quick else 14
     ndata, npred = (4, 5) if ctx.quick else (6, 8)
     cases, states = [], 0
     for r in range(rounds):
